@@ -9,16 +9,15 @@ Open Scope N_scope.
 (** word size of the fixed-width binary VRs (0: not a fixed-width VR) *)
 Definition word_size (v : vr) : nat :=
   match v with
-  | US | SS | OW => 2 | UL | SL | OL | FL | OF => 4 | UV | SV | OV | FD | OD => 8 | _ => 0
+  | US | SS | OW => 2 | UL | SL | OL | FL | OF | AT => 4 | UV | SV | OV | FD | OD => 8 | _ => 0
   end.
 
 (** A canonical value field of VR [v] (PS3.5: even length, a whole number of
-    words for the fixed-width VRs, bytes are bytes). AT is left out of the
-    proved part. *)
+    words for the fixed-width VRs incl. AT, bytes are bytes). *)
 Definition canon_val (c : codec) (v : vr) (val : bytes) : Prop :=
   wf_bytes val /\ blen val mod 2 = 0 /\ blen val < 4294967295 /\
   (c <> ILE -> ps35_len16 v = true -> blen val <= 65535) /\
-  v <> SQ /\ v <> AT /\
+  v <> SQ /\
   (word_size v <> O -> exists n, length val = (n * word_size v)%nat).
 
 Lemma latin1_enc_wf s : wf_bytes s -> latin1_enc s = Ok s.
@@ -91,13 +90,49 @@ Proof.
   - rewrite C. unfold nlen, blen. rewrite dec_words_length, Len. lia.
 Qed.
 
+(** Attribute tags: the decoded (group, element) pairs re-encode to the same bytes. *)
+Lemma u16_word c n : u16 c n = word c 2 n.
+Proof. destruct c; reflexivity. Qed.
+
+Lemma tags_canon_bytes c n val :
+  length val = (n * 4)%nat -> wf_bytes val ->
+  flat_map (fun t : tag => u16 c (fst t) ++ u16 c (snd t))
+    (map (fun w => (rd c (firstn 2 w), rd c (skipn 2 w))) (chunks 4 n val)) = val.
+Proof.
+  intros Len W. rewrite flat_map_concat_map, map_map. rewrite <- (chunks_concat 4 n val Len) at 2. f_equal.
+  pose proof (chunks_Forall 4 n val Len W) as F.
+  induction F as [|w l [Hw1 Hw2] Hl IH]; [reflexivity|]. cbn [map]. rewrite IH. f_equal. cbn [fst snd].
+  rewrite !u16_word.
+  assert (W1 : wf_bytes (firstn 2 w) /\ wf_bytes (skipn 2 w)).
+  { unfold wf_bytes in *. rewrite <- (firstn_skipn 2 w) in Hw2. apply Forall_app in Hw2. exact Hw2. }
+  rewrite (word_rd c 2 (firstn 2 w)) by (try apply firstn_length_le; try lia; tauto).
+  rewrite (word_rd c 2 (skipn 2 w)) by (try (rewrite skipn_length; lia); tauto).
+  apply firstn_skipn.
+Qed.
+
+Lemma tags_canon c t v val n :
+  length val = (n * 4)%nat -> wf_bytes val ->
+  (match v with DS | IS => False | _ => True end) ->
+  blen val mod 2 = 0 -> blen val < 4294967295 -> (c <> ILE -> ps35_len16 v = true -> blen val <= 65535) ->
+  enc_binary c t v (PTags (map (fun w => (rd c (firstn 2 w), rd c (skipn 2 w))) (chunks 4 (Nat.div (length val) 4) val)))
+  = Ok (ps35_header c t v (blen val) ++ val).
+Proof.
+  intros Len W Hv E L S.
+  assert (D : Nat.div (length val) 4 = n) by (rewrite Len; apply Nat.div_mul; discriminate).
+  rewrite D. apply enc_binary_canon; try assumption.
+  - cbn [enc_prim fst]. apply tags_canon_bytes; assumption.
+  - cbn [calc_byte_len]. unfold nlen, blen. rewrite map_length.
+    assert (CL : forall m b, length (chunks 4 m b) = m) by (induction m; intros; cbn; [reflexivity | rewrite IHm; reflexivity]).
+    rewrite CL, Len. lia.
+Qed.
+
 (** C02 at element level: the element read from a canonical value field is
     re-encoded to exactly the same bytes. *)
 Lemma rewrite_element c t v val p :
   canon_val c v val -> back_value c v val = Ok p ->
   enc_prim_element c t v p = Ok (ps35_header c t v (blen val) ++ val).
 Proof.
-  intros (W & E & L & S & Hsq & Hat & Hw) B. unfold back_value in B.
+  intros (W & E & L & S & Hsq & Hw) B. unfold back_value in B.
   destruct (blen val =? 0) eqn:Z.
   - (* empty value *)
     inversion B; subst p. apply N.eqb_eq in Z.
@@ -120,6 +155,8 @@ Proof.
     destruct v; try congruence; cbn [value_of_bytes] in B; inversion B; subst p; clear B;
       try exact TXT; try exact STR;
       try (apply U8; [exact I | apply enc_binary_canon; try reflexivity; assumption]);
+      try (destruct (Hw ltac:(cbn; discriminate)) as [n Hn]; cbn [word_size] in Hn; unfold enc_prim_element;
+           apply (tags_canon c t AT val n Hn W I E L S));
       (destruct (Hw ltac:(cbn; discriminate)) as [n Hn]; cbn [word_size] in Hn;
        change (enc_prim_element c t ?vv ?pp) with (enc_binary c t vv pp) || idtac;
        unfold enc_prim_element;
@@ -149,7 +186,7 @@ Proof.
   induction es as [|e es IH]; intros H; [exists []; exact I|].
   destruct e as [t v val| |]; cbn in H; try contradiction.
   destruct H as (Ht & Hg & Hp & Hc & H16 & Hr). destruct (IH Hr) as [ps Hps].
-  destruct Hc as (W & E & L & S & Hsq & Hat & Hw).
+  destruct Hc as (W & E & L & S & Hsq & Hw).
   assert (Q : vr_eqb (read_vr c d t v) SQ = false) by (destruct (read_vr c d t v); try reflexivity; congruence).
   destruct (back_value_not_sq c (read_vr c d t v) val Q) as [p Hp'].
   exists (p :: ps). cbn [rflat_ok]. split; [|exact Hps].
